@@ -232,35 +232,45 @@ inductive Touches (cell : Cell) : Prog → Prop where
 
 /-! ### deterministic programs, tame programs, consistent caches -/
 
-/-- `Det F P h p`: `p` uses no identity generator, no PRNG and no clock; every cached function it calls
-    is called with a key satisfying `P` and would compute `F c k`; the ContextVar is read only after
-    the run has set it (`h` = already set). -/
-inductive Det (F : CacheId → Key → Val) (P : Key → Bool) : Bool → Prog → Prop where
-  | done {h} : Det F P h .done
-  | fail {h m} : Det F P h (.fail m)
-  | emit {h r p} : Det F P h p → Det F P h (.emit r p)
-  | lookup {h c k v kont} : P k = true → v = F c k → (∀ obs, Det F P h (kont obs)) → Det F P h (.op (.lookup c k v) kont)
-  | setHistory {h n kont} : (∀ obs, Det F P true (kont obs)) → Det F P h (.op (.setHistory n) kont)
-  | getHistory {kont} : (∀ obs, Det F P true (kont obs)) → Det F P true (.op .getHistory kont)
-  | enterDir {h d kont} : (∀ obs, Det F P h (kont obs)) → Det F P h (.op (.enterDir d) kont)
-  | leaveDir {h kont} : (∀ obs, Det F P h (kont obs)) → Det F P h (.op .leaveDir kont)
+/-- what the continuation of a lookup may depend on: the returned value seen through `f` -/
+def Obs.view (f : Val → Val) : Obs → Obs
+  | .val v => .val (f v)
+  | o => o
 
-/-- `Tame F P p`: whatever else `p` does (ids, draws, clock, failures), a cached function called with a
-    key satisfying `P` computes `F c k` — the functions behind the caches are pure on `P`. -/
-inductive Tame (F : CacheId → Key → Val) (P : Key → Bool) : Prog → Prop where
+/-- `Det F P V h p`: `p` uses no identity generator, no PRNG and no clock; every cached function `c` it
+    calls is called with a key satisfying `P c` and would compute `F c k`, and what the program does next
+    depends on the returned object only through the view `V c` (e.g. `StandardFuncs.datetime` converts
+    whatever `parse_datetimespec` returns to the target zone); the ContextVar is read only after the run
+    has set it (`h` = already set). -/
+inductive Det (F : CacheId → Key → Val) (P : CacheId → Key → Bool) (V : CacheId → Val → Val) : Bool → Prog → Prop where
+  | done {h} : Det F P V h .done
+  | fail {h m} : Det F P V h (.fail m)
+  | emit {h r p} : Det F P V h p → Det F P V h (.emit r p)
+  | lookup {h c k v kont} : P c k = true → v = F c k →
+      (∀ o o' : Obs, o.view (V c) = o'.view (V c) → kont o = kont o') →
+      (∀ obs, Det F P V h (kont obs)) → Det F P V h (.op (.lookup c k v) kont)
+  | setHistory {h n kont} : (∀ obs, Det F P V true (kont obs)) → Det F P V h (.op (.setHistory n) kont)
+  | getHistory {kont} : (∀ obs, Det F P V true (kont obs)) → Det F P V true (.op .getHistory kont)
+  | enterDir {h d kont} : (∀ obs, Det F P V h (kont obs)) → Det F P V h (.op (.enterDir d) kont)
+  | leaveDir {h kont} : (∀ obs, Det F P V h (kont obs)) → Det F P V h (.op .leaveDir kont)
+
+/-- `Tame F P p`: whatever else `p` does (ids, draws, clock, failures), a cached function `c` called with a
+    key satisfying `P c` computes `F c k` — the functions behind the caches are pure on `P`. -/
+inductive Tame (F : CacheId → Key → Val) (P : CacheId → Key → Bool) : Prog → Prop where
   | done : Tame F P .done
   | fail {m} : Tame F P (.fail m)
   | emit {r p} : Tame F P p → Tame F P (.emit r p)
-  | lookup {c k v kont} : (P k = true → v = F c k) → (∀ obs, Tame F P (kont obs)) → Tame F P (.op (.lookup c k v) kont)
+  | lookup {c k v kont} : (P c k = true → v = F c k) → (∀ obs, Tame F P (kont obs)) → Tame F P (.op (.lookup c k v) kont)
   | other {o kont} : (∀ c k v, o ≠ .lookup c k v) → (∀ obs, Tame F P (kont obs)) → Tame F P (.op o kont)
 
 /-- every cached entry whose key satisfies `P` holds the value of `F` -/
-def Consistent (F : CacheId → Key → Val) (P : Key → Bool) (p : Proc) : Prop :=
-  ∀ c e, e ∈ (p.caches c).entries → P e.1 = true → e.2 = F c e.1
+def Consistent (F : CacheId → Key → Val) (P : CacheId → Key → Bool) (p : Proc) : Prop :=
+  ∀ c e, e ∈ (p.caches c).entries → P c e.1 = true → e.2 = F c e.1
 
-/-- `P` is closed under Python key equality and `F` cannot tell Python-equal `P`-keys apart -/
-def Compat (F : CacheId → Key → Val) (P : Key → Bool) : Prop :=
-  ∀ c a b, P b = true → a.pyEq b = true → (P a = true ∧ F c a = F c b)
+/-- `P` is closed under Python key equality and, seen through the view `V`, `F` cannot tell Python-equal
+    `P`-keys apart -/
+def Compat (F : CacheId → Key → Val) (P : CacheId → Key → Bool) (V : CacheId → Val → Val) : Prop :=
+  ∀ c a b, P c b = true → a.pyEq b = true → (P c a = true ∧ V c (F c a) = V c (F c b))
 
 /-- bracket discipline of `chdir` along every path, failing paths included (`finally`) -/
 inductive Bal : Nat → Prog → Prop where
@@ -301,6 +311,59 @@ def specF : CacheId → Key → Option Val
 
 /-- total version used in the refutation witnesses -/
 def specFD (c : CacheId) (k : Key) : Val := (specF c k).getD k
+
+/-- what `StandardFuncs.Functions.datetime(datetimespec, timezone=tz)` does with the object that
+    `parse_datetimespec` handed back (since commit f914bf1): a value carrying a non-zero UTC offset is
+    *converted* (`astimezone`: the instant is kept), anything else is *relabelled* (`replace(tzinfo=…)`:
+    the wall clock is kept).  `tz = none` is `timezone: False` (naive result). -/
+def datetimeFn (tz : Option Int) : Val → Val
+  | .aware i o =>
+    match tz with
+    | some t => if o ≠ 0 then .aware i t else .aware (i + o - t) t
+    | none => .naive (i + o)
+  | v => v
+
+/-- the views under which today's callers look at cached values: `datetime:` with the default zone (UTC)
+    for `parse_datetimespec`, the object itself everywhere else -/
+def stdV : CacheId → Val → Val
+  | .parseDatetimespec => datetimeFn (some 0)
+  | _ => id
+
+/-- keys a deterministic recipe may use today: anything for `parse_datetimespec` (seen through `stdV`),
+    no aware datetime for the other caches (`date:`, `date_between`, Counters, Schedule go through
+    `parse_date`, which returns the offset-dependent calendar day) -/
+def stdP : CacheId → Key → Bool
+  | .parseDatetimespec, _ => true
+  | _, k => !k.isAware
+
+/-! ### the caller's `plugin_options` (D19c, repaired by commit 6b35a3e) -/
+
+abbrev Dict := List (String × Int)
+
+def Dict.set (d : Dict) (k : String) (v : Int) : Dict :=
+  (k, v) :: d.filter (fun e => e.1 ≠ k)
+
+def Dict.get? (d : Dict) (k : String) : Option Int :=
+  (d.find? (fun e => e.1 = k)).map (·.2)
+
+/-- `generate`: `plugin_options = dict(plugin_options or {})` (`copies = true`, pinned) resp. the old
+    `plugin_options = plugin_options or {}` (`copies = false`: the caller's non-empty dict itself), then
+    `plugin_options["snowfakery_version"] = parse_result.version` if the recipe declares one.
+    Returns (the caller's dict after the call, the dict the run uses). -/
+def prepareOptions (copies : Bool) (caller : Dict) (version : Option Int) : Dict × Dict :=
+  let used := match version with
+    | some v => caller.set "snowfakery_version" v
+    | none => caller
+  (if copies || caller.isEmpty then caller else used, used)
+
+/-- dialect a run executes under (`Interpreter.__init__`: default 2) -/
+def dialectOf (used : Dict) : Int := (used.get? "snowfakery_version").getD 2
+
+/-- a caller that passes ONE dict object to a list of `generate` calls (recipe versions `vs`):
+    the dialects the calls run under -/
+def dialects (copies : Bool) : Dict → List (Option Int) → List Int
+  | _, [] => []
+  | d, v :: vs => dialectOf (prepareOptions copies d v).2 :: dialects copies (prepareOptions copies d v).1 vs
 
 /-! ### classification of the pinned cells -/
 
